@@ -126,6 +126,34 @@ Fixpoint unrooted_kids (need : bool) (cs : list tree) : list tree :=
 Definition unrooted (t : tree) : tree :=
   Node (tname t) (tlen t) (unrooted_kids (Nat.ltb (length (kids t)) 3) (kids t)).
 
+(** REPAIRED [unrooted()] (notes/proposed_fixes/C09-1.diff): the grandchildren
+    keep their lengths; when the root has exactly two children the collapsed
+    edge's length goes to the OTHER child of the root (the edge it is merged
+    with); a single root child is simply dissolved.  The driver selects this
+    variant when the source text of [unrooted] is the repaired one. *)
+Definition bump (lo : option Z) (s : tree) : tree :=
+  Node (tname s) (add_len (tlen s) lo) (kids s).
+
+Definition unrooted_fixed (t : tree) : tree :=
+  match kids t with
+  | [x] => match kids x with
+           | _ :: _ => Node (tname t) (tlen t) (kids x)
+           | [] => t
+           end
+  | [x; y] =>
+      match kids x with
+      | _ :: _ => Node (tname t) (tlen t) (kids x ++ [bump (tlen x) y])
+      | [] => match kids y with
+              | _ :: _ => Node (tname t) (tlen t) (bump (tlen y) x :: kids y)
+              | [] => t
+              end
+      end
+  | _ => t
+  end.
+
+(** [fx = true]: the repaired source *)
+Definition unrooted_v (fx : bool) (t : tree) : tree := if fx then unrooted_fixed t else unrooted t.
+
 (* ------------------------------------------------------------------ get_sub_tree *)
 
 (** merging a single-child node into its child: lengths are added when both
@@ -191,11 +219,13 @@ Definition get_sub_tree_core (t : tree) (S : list name) (ignore_missing keep_roo
        | Some r => if is_tip r then Err E_Tree else Ok (set_name root_name r)
        end.
 
-Definition get_sub_tree (t : tree) (S : list name) (ignore_missing keep_root tipsonly : bool) : res tree :=
+Definition get_sub_tree_v (fx : bool) (t : tree) (S : list name) (ignore_missing keep_root tipsonly : bool) : res tree :=
   match get_sub_tree_core t S ignore_missing keep_root tipsonly with
   | Err e => Err e
-  | Ok r => if Nat.ltb 2 (length (kids t)) then Ok (unrooted r) else Ok r
+  | Ok r => if Nat.ltb 2 (length (kids t)) then Ok (unrooted_v fx r) else Ok r
   end.
+
+Definition get_sub_tree := get_sub_tree_v false.
 
 (* ------------------------------------------------------------------ sorted *)
 
